@@ -6,10 +6,17 @@
 (* commands it has applied (so "every leader command exactly once, in leader   *)
 (* order" is: applied = base+1 .. lidx) plus the recorded leader index.        *)
 (* Worker steps are separate actions so that polling, message cuts, proposal   *)
-(* cuts, recovery and restarts interleave with leader writes.                  *)
+(* cuts, proposal timeouts, recovery and restarts interleave with leader       *)
+(* writes.                                                                     *)
+(* Mode = "asis": the pinned commit - a SEQUENCE is applied whatever the       *)
+(* recorded leader index is, so a proposal the worker timed out on that is     *)
+(* committed after the worker polled again takes effect twice (reproduced on   *)
+(* the real code by the apply-stall scenario of vdrive repl).  Mode = "fixed": *)
+(* commands at or below the recorded leader index are skipped and the index    *)
+(* never moves backwards (storage/table/fsm/command_sequence.go).              *)
 EXTENDS Integers, Sequences, FiniteSets, TLC
 
-CONSTANTS MaxLog, MsgLimit, PropLimit, MaxRestarts, Deviations
+CONSTANTS MaxLog, MsgLimit, PropLimit, MaxRestarts, MaxTimeouts, Mode
 
 VARIABLES N,          \* leader: last applied log index
           comp,       \* leader: compaction point (entries <= comp are only in snapshots)
@@ -18,22 +25,31 @@ VARIABLES N,          \* leader: last applied log index
           lidx,       \* follower: recorded leader index
           w,          \* worker: [st, first, msg (sequence of indices in flight), snap]
           inflight,   \* proposals the worker gave up on that may still commit: set of [cmds, li]
-          restarts
-vars == <<N, comp, base, applied, lidx, w, inflight, restarts>>
+          restarts, timeouts
+vars == <<N, comp, base, applied, lidx, w, inflight, restarts, timeouts>>
 
 Idle == [st |-> "idle", first |-> 0, msg |-> <<>>, snap |-> 0]
-Init == N = 0 /\ comp = 0 /\ base = 0 /\ applied = <<>> /\ lidx = 0 /\ w = Idle /\ inflight = {} /\ restarts = 0
+Init == N = 0 /\ comp = 0 /\ base = 0 /\ applied = <<>> /\ lidx = 0 /\ w = Idle /\ inflight = {} /\ restarts = 0 /\ timeouts = 0
 
 Range(a, b) == [i \in 1..(b - a + 1) |-> a + i - 1]
 
 \* ---- leader
-Write == N < MaxLog /\ N' = N + 1 /\ UNCHANGED <<comp, base, applied, lidx, w, inflight, restarts>>
-Compact == \E c \in (comp + 1)..N : comp' = c /\ UNCHANGED <<N, base, applied, lidx, w, inflight, restarts>>
+Write == N < MaxLog /\ N' = N + 1 /\ UNCHANGED <<comp, base, applied, lidx, w, inflight, restarts, timeouts>>
+Compact == \E c \in (comp + 1)..N : comp' = c /\ UNCHANGED <<N, base, applied, lidx, w, inflight, restarts, timeouts>>
+
+\* ---- follower state machine: one SEQUENCE proposal (commands cmds, tagged with leader index li) is applied
+\* atomically together with the leader index (commandSequence.handle + updateContext.Commit)
+ApplySeq(cmds, li) ==
+  IF Mode = "fixed"
+  THEN /\ applied' = applied \o SelectSeq(cmds, LAMBDA c : c > lidx)
+       /\ lidx' = IF li > lidx THEN li ELSE lidx
+  ELSE /\ applied' = applied \o cmds
+       /\ lidx' = li
 
 \* ---- worker: poll = read the recorded leader index, ask for the next one
 Poll == /\ w.st = "idle"
         /\ w' = [Idle EXCEPT !.st = "asked", !.first = lidx + 1]
-        /\ UNCHANGED <<N, comp, base, applied, lidx, inflight, restarts>>
+        /\ UNCHANGED <<N, comp, base, applied, lidx, inflight, restarts, timeouts>>
 \* the leader answers (LogServer.Replicate): one message of at most MsgLimit commands
 Respond ==
   /\ w.st = "asked"
@@ -42,43 +58,44 @@ Respond ==
      ELSE IF w.first = N + 1 THEN w' = Idle                                    \* up to date
      ELSE LET last == IF w.first + MsgLimit - 1 < N THEN w.first + MsgLimit - 1 ELSE N
           IN w' = [w EXCEPT !.st = "propose", !.msg = Range(w.first, last)]
-  /\ UNCHANGED <<N, comp, base, applied, lidx, inflight, restarts>>
+  /\ UNCHANGED <<N, comp, base, applied, lidx, inflight, restarts, timeouts>>
 \* proposeBatch: SEQUENCE proposals of at most PropLimit commands, tagged with the last command's index
 Propose ==
   /\ w.st = "propose" /\ w.msg # <<>>
   /\ LET k == IF Len(w.msg) < PropLimit THEN Len(w.msg) ELSE PropLimit
          cmds == SubSeq(w.msg, 1, k)
          rest == SubSeq(w.msg, k + 1, Len(w.msg)) IN
-     \/ \* applied atomically with its leader index (FSM: sequence + Commit)
-        /\ applied' = applied \o cmds /\ lidx' = cmds[k]
+     \/ \* committed and applied in time
+        /\ ApplySeq(cmds, cmds[k])
         /\ w' = IF rest = <<>> THEN [Idle EXCEPT !.st = "more", !.first = cmds[k] + 1] ELSE [w EXCEPT !.msg = rest]
-        /\ inflight' = inflight
-     \/ \* DEVIATION: the worker gives up (timeout) on a proposal that is still in flight
-        /\ "DupApplyAfterProposeTimeout" \in Deviations
+        /\ UNCHANGED <<inflight, timeouts>>
+     \/ \* the worker gives up (SyncPropose times out) on a proposal that is still in flight; it polls again later
+        /\ timeouts < MaxTimeouts /\ timeouts' = timeouts + 1
         /\ inflight' = inflight \cup {[cmds |-> cmds, li |-> cmds[k]]}
         /\ w' = Idle /\ UNCHANGED <<applied, lidx>>
   /\ UNCHANGED <<N, comp, base, restarts>>
 \* the Replicate stream continues with the next slice
 More == /\ w.st = "more" /\ w' = [Idle EXCEPT !.st = "asked", !.first = w.first]
-        /\ UNCHANGED <<N, comp, base, applied, lidx, inflight, restarts>>
-\* an abandoned proposal commits after all
+        /\ UNCHANGED <<N, comp, base, applied, lidx, inflight, restarts, timeouts>>
+\* an abandoned proposal commits after all, or is lost
 LateCommit == \E p \in inflight :
-                /\ applied' = applied \o p.cmds /\ lidx' = p.li /\ inflight' = inflight \ {p}
-                /\ UNCHANGED <<N, comp, base, w, restarts>>
+                /\ ApplySeq(p.cmds, p.li) /\ inflight' = inflight \ {p}
+                /\ UNCHANGED <<N, comp, base, w, restarts, timeouts>>
+LateDrop == \E p \in inflight : inflight' = inflight \ {p} /\ UNCHANGED <<N, comp, base, applied, lidx, w, restarts, timeouts>>
 
 \* recover: stream a snapshot (point in time: index s = leader's applied index when it is taken), load it into a
 \* fresh shard, switch the table to it
 SnapTaken == /\ w.st = "recover" /\ w.snap = 0 /\ N > 0 /\ w' = [w EXCEPT !.snap = N]
-             /\ UNCHANGED <<N, comp, base, applied, lidx, inflight, restarts>>
+             /\ UNCHANGED <<N, comp, base, applied, lidx, inflight, restarts, timeouts>>
 Switch == /\ w.st = "recover" /\ w.snap # 0
           /\ base' = w.snap /\ applied' = <<>> /\ lidx' = w.snap /\ w' = Idle
           /\ inflight' = {}            \* proposals to the old shard die with it
-          /\ UNCHANGED <<N, comp, restarts>>
-\* worker / engine restart: whatever the worker was doing is forgotten
+          /\ UNCHANGED <<N, comp, restarts, timeouts>>
+\* worker / engine restart, or a replication stream that breaks: whatever the worker was doing is forgotten
 Restart == /\ restarts < MaxRestarts /\ restarts' = restarts + 1 /\ w' = Idle
-           /\ UNCHANGED <<N, comp, base, applied, lidx, inflight>>
+           /\ UNCHANGED <<N, comp, base, applied, lidx, inflight, timeouts>>
 
-Next == Write \/ Compact \/ Poll \/ Respond \/ Propose \/ More \/ LateCommit \/ SnapTaken \/ Switch \/ Restart
+Next == Write \/ Compact \/ Poll \/ Respond \/ Propose \/ More \/ LateCommit \/ LateDrop \/ SnapTaken \/ Switch \/ Restart
 Spec == Init /\ [][Next]_vars
 Fair == Spec /\ WF_vars(Poll) /\ WF_vars(Respond) /\ WF_vars(Propose) /\ WF_vars(More) /\ WF_vars(SnapTaken) /\ WF_vars(Switch)
 
